@@ -464,6 +464,10 @@ def ite(c, a: V, b: V) -> V:
     if isinstance(a, Lst) and isinstance(b, Lst):
         if a.concrete and b.concrete and len(a.items) == len(b.items):
             return Lst(items=[ite(c, x, y) for x, y in zip(a.items, b.items)])
+        if b.concrete and not b.items:      # an index in range implies c: the element comes from a
+            return Lst(n=z3.If(c, a.length(), 0), at=lambda i, a=a: a.at(i))
+        if a.concrete and not a.items:
+            return Lst(n=z3.If(c, 0, b.length()), at=lambda i, b=b: b.at(i))
         return Lst(n=z3.If(c, a.length(), b.length()), at=lambda i, a=a, b=b, c=c: ite(c, a.at(i), b.at(i)))
     if isinstance(a, Obj) and isinstance(b, Obj) and a.cls == b.cls and a.fields.keys() == b.fields.keys():
         return Obj(a.cls, {k: ite(c, a.fields[k], b.fields[k]) for k in a.fields})
